@@ -5,14 +5,29 @@ import MosdnsVerif.Gen.Facts
 `EntryHandler.Handle` and a chain made of `forward_edns0opt` / `ttl` plugins around one `cache` plugin in front of a
 scripted upstream. What `Handle` does to the response *after* the chain returned (RA, the appended response OPT) is
 visible in the cache entry exactly when the entry is the same object as the live response; whether `copyNoOpt` may hand
-back its argument is the parameter `aliases` (a regenerated fact, `Gen.Facts.c15CopyNoOptAliasPaths`). -/
+back its argument is the parameter `aliases` (a regenerated fact, `Gen.Facts.c15CopyNoOptAliasPaths`).
+
+`ecs_handler` is a plugin of the chain too: what `addECS` puts into the query and when `Exec` copies the upstream's
+client-subnet option back (parameter `ecsLoose`, regenerated fact `c15EcsForwardedLoosePaths`). `fork` models the plugins
+that run sub-chains on copies of the context and throw some of them away (fallback, dual_selector, the lazy cache's
+refresh); whether a copy's response OPT is the original's object is the parameter `copyShares` (regenerated fact
+`c15CopyToRespOptDeep`). -/
 namespace Model.C15
 open Model.Handler
+
+/-- what the model takes from the code as regenerated facts (`genCode`); `clean` is what the theorems need -/
+structure Code where
+  aliases : Msg → Bool     -- may `copyNoOpt` hand back its argument
+  ecsLoose : Bool          -- may ecs_handler copy the upstream's option back although it sent an option of its own making
+  copyShares : Bool        -- is the response OPT of a context copy the original's object
+
+def clean : Code := ⟨fun _ => false, false, false⟩
 
 inductive Plugin where
   | fwd (codes : List Nat)      -- forward_edns0opt <codes>
   | cache
   | ttl                          -- rewrites TTLs of non-OPT records: nothing this model looks at
+  | ecs (forward : Bool) (own : Option Nat)  -- ecs_handler; `own` = payload of the option it makes itself (preset, else `send`)
   deriving Repr, DecidableEq
 
 /-- what the scripted upstream does when it is reached without a response in the context -/
@@ -56,6 +71,47 @@ def fwdBack (codes : List Nat) (c : Ctx) : Ctx :=
   | some uo, some ro => { c with respOpt := some { ro with options := ro.options ++ uo.options.filter (fun p => codes.contains p.1) } }
   | _, _ => c
 
+/-- append options to the query's OPT -/
+def appendQ (add : List (Nat × Nat)) (c : Ctx) : Ctx :=
+  { c with q := { c.q with extra := c.q.extra.map (fun r => match r with
+      | .opt o => .opt { o with options := o.options ++ add }
+      | x => x) } }
+
+def qOptions (c : Ctx) : List (Nat × Nat) :=
+  c.q.extra.flatMap (fun r => match r with | .opt o => o.options | _ => [])
+
+def isEcs (p : Nat × Nat) : Bool := p.1 == 8
+
+/-- the query is not of class IN (RFC 7871: client-subnet is defined for IN only) -/
+def notIN (c : Ctx) : Bool :=
+  match c.q.question with
+  | qq :: _ => qq.qclass != 1
+  | [] => false
+
+/-- the client's own client-subnet option, looked at only with `forward` -/
+def clientEcs (forward : Bool) (c : Ctx) : Option (Nat × Nat) :=
+  if forward then c.clientOpt.bind (fun co => co.options.find? isEcs) else none
+
+/-- `ECSHandler.addECS`: nothing if the query already has a client-subnet option or is not class IN; with `forward` the
+client's own option if it sent one (reported as forwarded); otherwise the option of the handler's own making. -/
+def addECS (loose forward : Bool) (own : Option Nat) (c : Ctx) : Ctx × Bool :=
+  if (qOptions c).any isEcs || notIN c then (c, false) else
+  match clientEcs forward c with
+  | some o => (appendQ [o] c, true)
+  | none =>
+    match own with
+    | some p => (appendQ [(8, p)] c, loose && forward)
+    | none => (c, false)
+
+/-- `ECSHandler.Exec`, reply side, `if forwarded`: the upstream's (first) client-subnet option is appended to the response OPT -/
+def ecsBack (c : Ctx) : Ctx :=
+  match c.respOpt, c.upstreamOpt with
+  | some ro, some uo =>
+    match uo.options.find? isEcs with
+    | some o => { c with respOpt := some { ro with options := ro.options ++ [o] } }
+    | none => c
+  | _, _ => c
+
 structure Res where
   c : Ctx
   failed : Bool
@@ -63,7 +119,7 @@ structure Res where
   upQ : Msg        -- the query the upstream plugin was handed (the chain always walks to its end)
   deriving Repr
 
-def exec (aliases : Msg → Bool) (up : Up) : List Plugin → Ctx → Slot → Res
+def exec (k : Code) (up : Up) : List Plugin → Ctx → Slot → Res
   | [], c, s =>
     match c.resp, up with     -- the scripted upstream leaves an existing response alone
     | some _, _ => ⟨c, false, s, c.q⟩
@@ -71,21 +127,25 @@ def exec (aliases : Msg → Bool) (up : Up) : List Plugin → Ctx → Slot → R
       ⟨upstreamAnswer { setReply c.q with rcode := rc, answer := (List.range n).map (fun i => RR.rr [97] 1 300 i), extra := ex } c, false, s, c.q⟩
     | none, .none => ⟨c, false, s, c.q⟩
     | none, .err => ⟨c, true, s, c.q⟩
-  | .ttl :: rest, c, s => exec aliases up rest c s
+  | .ttl :: rest, c, s => exec k up rest c s
   | .fwd codes :: rest, c, s =>
-    let r := exec aliases up rest (addQOpts codes c) s
+    let r := exec k up rest (addQOpts codes c) s
     if r.failed then r else { r with c := fwdBack codes r.c }
+  | .ecs fw own :: rest, c, s =>
+    let a := addECS k.ecsLoose fw own c
+    let r := exec k up rest a.1 s
+    if r.failed then r else if a.2 then { r with c := ecsBack r.c } else r
   | .cache :: rest, c, s =>
     let hit := match s with | .own m => some m | _ => none
     let c1 := match hit with | some m => cacheHit m c | none => c
-    let r := exec aliases up rest c1 s
+    let r := exec k up rest c1 s
     match hit, r.c.resp with
-    | none, some m => if cacheable m then { r with slot := if aliases m then .live else .own (copyNoOpt m) } else r
+    | none, some m => if cacheable m then { r with slot := if k.aliases m then .live else .own (copyNoOpt m) } else r
     | _, _ => r
 
 /-- the chain as an entry of `Model.Handler.reply` -/
-def entry (aliases : Msg → Bool) (up : Up) (chain : List Plugin) (s : Slot) (c : Ctx) : Ctx × Bool :=
-  let r := exec aliases up chain c s
+def entry (k : Code) (up : Up) (chain : List Plugin) (s : Slot) (c : Ctx) : Ctx × Bool :=
+  let r := exec k up chain c s
   (r.c, r.failed)
 
 structure Tx where
@@ -96,9 +156,9 @@ structure Tx where
 
 /-- One client transaction over TCP (no truncation). A `live` entry is the response object itself, so it is read after
 `Handle` has finished with that object. -/
-def transact (aliases : Msg → Bool) (chain : List Plugin) (up : Up) (q : Msg) (s : Slot) : Tx :=
+def transact (k : Code) (chain : List Plugin) (up : Up) (q : Msg) (s : Slot) : Tx :=
   if !validQuery q then ⟨none, s, none⟩ else
-  let r := exec aliases up chain (newContext q) s
+  let r := exec k up chain (newContext q) s
   let out := finish (fun m _ => m) false r.c (base r.c r.failed)
   let s' := match r.slot with
     | .live => if r.failed then (match r.c.resp with | some m => .own m | none => .empty) else .own out
@@ -122,5 +182,55 @@ def plugCodes : List Plugin → List Nat
   | [] => []
   | .fwd cs :: rest => cs ++ plugCodes rest
   | _ :: rest => plugCodes rest
+
+/-- does an ecs_handler of the chain have `forward` set -/
+def ecsForwards : List Plugin → Bool
+  | [] => false
+  | .ecs fw _ :: rest => fw || ecsForwards rest
+  | _ :: rest => ecsForwards rest
+
+/-- `Gen.Facts.c15EcsForwardedLoosePaths`: 0 = `addECS` reports "forwarded" only when the client's own option went upstream -/
+def ecsLoose : Bool := Gen.Facts.c15EcsForwardedLoosePaths != some 0
+
+/-- `Gen.Facts.c15CopyToRespOptDeep`: `Context.CopyTo` gives the copy a response OPT of its own -/
+def copyShares : Bool := Gen.Facts.c15CopyToRespOptDeep != some true
+
+/-- the model with the regenerated facts as its parameters -/
+def genCode : Code := ⟨copyAliases, ecsLoose, copyShares⟩
+
+/-! ### Sub-queries on copies of the context (fallback, dual_selector, lazy cache refresh) -/
+
+/-- a sub-chain run on a copy of the context, in front of its own scripted upstream -/
+structure Branch where
+  chain : List Plugin
+  up : Up
+  deriving Repr
+
+def runOn (k : Code) (b : Branch) (c : Ctx) : Res := exec k b.up b.chain c .empty
+
+inductive Adopt where
+  | fallback               -- `qCtx.SetResponse(r)` with the winner's response; no winner: ErrFailed
+  | selector               -- `*qCtx = *qCtxOrg`: the parent becomes the winner's context; no winner: blocked with an empty reply
+  | lazy (stored : Msg)    -- the parent takes the stale entry and walks the rest of the chain itself (the "winner")
+  deriving Repr
+
+/-- A plugin that runs sub-chains on copies of the context. The discarded sub-queries (the losing fallback branch,
+dual_selector's reference query, the lazy refresh) run to their end, post-processing included, before the reply is made -
+the interleaving that exposes a shared response OPT; with a copy that has a response OPT of its own (`copyShares = false`)
+nothing they do reaches the parent. -/
+def fork (k : Code) (mode : Adopt) (discarded : List Branch) (winner : Option Branch) (c : Ctx) : Ctx × Bool :=
+  let ro := discarded.foldl (fun ro b => if k.copyShares then (runOn k b { c with respOpt := ro }).c.respOpt else ro) c.respOpt
+  let c := { c with respOpt := ro }
+  match mode, winner with
+  | .fallback, none => (c, true)
+  | .fallback, some b =>
+    let r := runOn k b c
+    let c' := { c with respOpt := if k.copyShares then r.c.respOpt else c.respOpt }
+    match r.failed, r.c.resp with
+    | false, some m => (c'.setResponse (some m), false)
+    | _, _ => (c', true)
+  | .selector, none => (localAnswer 0 [] [] c, false)
+  | .selector, some b => let r := runOn k b c; (r.c, r.failed)
+  | .lazy stored, w => let r := runOn k (w.getD ⟨[], .none⟩) (cacheHit stored c); (r.c, r.failed)
 
 end Model.C15
